@@ -172,8 +172,17 @@ def run(ctx):
     if ok:
         r = ag[0][2]
         v = {n: Tn.operand(o) for n, o in zip(r["fields"], r["ops"])}
+        # input_data: the payload of the argument, or an empty vector when there is none
+        idp = ("param", 4, rn.local_name(4))
+        def input_ok(x):
+            if M.strip(x, also=("std::option::Option::<T>::unwrap_or_default",)) == idp:
+                return True
+            alts_ = [M.noref(a_) for a_ in M.alts(x)]
+            pay = [a_ for a_ in alts_ if a_ == ("field", ("downcast", idp, "Some"), "0")]
+            empty = [a_ for a_ in alts_ if a_[0] == "call" and not a_[2] and a_[1] in ("std::vec::Vec::<T>::new", "<std::vec::Vec<T> as std::default::Default>::default")]
+            return len(alts_) == 2 and len(pay) == 1 and len(empty) == 1
         ok = all(v[n] == ("param", i + 1, rn.local_name(i + 1)) for i, n in enumerate(("stdin", "stdout", "stderr"))) and const_of(v["input_pos"]) == 0 \
-            and M.strip(v["input_data"], also=("std::option::Option::<T>::unwrap_or_default",)) == ("param", 4, rn.local_name(4))
+            and input_ok(v["input_data"])
     ctx.ob("R02.2", "RawCommunicator::new.field-wise", ok, rn.loc(0), "stdin/stdout/stderr/input_data stored in their own fields, cursor starts at 0")
 
     # ---- R02.3 input accounting --------------------------------------------------------------------
